@@ -88,4 +88,50 @@ example :
     (refs (squash lib 2 self)).length = 1 ∧ Tree.size (squash lib 2 self) = 5 ∧ Tree.size (squash lib 0 self) = 3 := by
   decide
 
+/-! ### A note that includes itself: one more copy per level of depth, however the cycle is reached -/
+
+/-- the note `k`: a paragraph and a block reference to `k` itself -/
+def selfLoop : Tree :=
+  .mk (some 0) (.document "k") [.mk (some 1) (.leaf []) [], .mk (some 2) (.ref "k" "" .regular) []]
+
+def selfLib : String → Option Tree := fun key => if key = "k" then some selfLoop else none
+
+private theorem selfLoop_children (jump : String → Option (List Tree)) :
+    (sqTree jump selfLoop).children
+      = .mk (some 1) (.leaf []) [] :: (match jump "k" with
+          | some kids => kids
+          | none => [.mk (some 2) (.ref "k" "" .regular) []]) := by
+  simp only [selfLoop, sqTree, sqKids, sqChild, assemble, Tree.children, Tree.isReference, Tree.node, Node.isRef]
+  cases jump "k" <;> simp [sqKids, assemble]
+
+private theorem selfLoop_kids_count (d : Nat) :
+    (nonRefIdsL (sqTree (jumpAt selfLib d) selfLoop).children).length = d + 1 := by
+  induction d with
+  | zero =>
+    rw [selfLoop_children]
+    simp [jumpAt, nonRefIdsL, nonRefIds, Node.isRef]
+  | succ d ih =>
+    rw [selfLoop_children]
+    have hj : jumpAt selfLib (d + 1) "k" = some (sqTree (jumpAt selfLib d) selfLoop).children := by
+      simp [jumpAt, selfLib]
+    rw [hj]
+    simp only [nonRefIdsL, nonRefIds, Node.isRef, List.length_append, ih]
+    simp
+    omega
+
+/-- **expansion is counted down along the cycle, never cut short**: squashing the self-including note
+with depth `d` yields the paragraph `d + 1` times (and the root once) — the reference is expanded at
+every level while depth remains, although its target is the very note being expanded.  (A guard that
+keeps a reference as a link because its target is "already open" would give 2 copies for every `d ≥ 1`.) -/
+theorem self_loop_copies (d : Nat) :
+    (nonRefIds (squash selfLib d selfLoop)).length = d + 2 := by
+  have h := selfLoop_kids_count d
+  have hs : squash selfLib d selfLoop
+      = .mk (some 0) (.document "k") (sqTree (jumpAt selfLib d) selfLoop).children := by
+    simp [squash, selfLoop, sqTree, Tree.children]
+  rw [hs]
+  simp only [nonRefIds, Node.isRef, List.length_append, h]
+  simp
+  omega
+
 end Iwe.C17
